@@ -301,6 +301,28 @@ func NDP() []Case {
 				}})
 		}
 	}
+	// one option of every size class of the 8-bit length field (in units of 8 bytes): the
+	// redirected-header option of a Redirect and a source link-layer option of an advertisement
+	for _, units := range []int{1, 2, 31, 32, 33, 64, 128, 155, 255} {
+		units := units
+		for mi, name := range []string{"redirect", "router-advertisement"} {
+			mi := mi
+			out = append(out, Case{Desc: fmt.Sprintf("ndp-%s: one option of %d bytes", name, units*8), First: layers.LayerTypeIPv6, Small: units <= 2,
+				Make: func() ([]gopacket.SerializableLayer, []byte) {
+					data := make([]byte, units*8-2)
+					for i := range data {
+						data[i] = byte(i*5 + 1)
+					}
+					ip := &layers.IPv6{Version: 6, HopLimit: 255, NextHeader: layers.IPProtocolICMPv6, SrcIP: s6, DstIP: d6}
+					if mi == 0 {
+						os := layers.ICMPv6Options{{Type: layers.ICMPv6OptRedirectedHeader, Data: data}}
+						return []gopacket.SerializableLayer{ip, &layers.ICMPv6{TypeCode: layers.CreateICMPv6TypeCode(layers.ICMPv6TypeRedirect, 0)}, &layers.ICMPv6Redirect{TargetAddress: d6, DestinationAddress: s6, Options: os}}, nil
+					}
+					os := layers.ICMPv6Options{{Type: layers.ICMPv6OptSourceAddress, Data: data}, {Type: layers.ICMPv6OptMTU, Data: []byte{0, 0, 0, 0, 5, 0xdc}}}
+					return []gopacket.SerializableLayer{ip, &layers.ICMPv6{TypeCode: layers.CreateICMPv6TypeCode(layers.ICMPv6TypeRouterAdvertisement, 0)}, &layers.ICMPv6RouterAdvertisement{HopLimit: 64, Flags: 0x80, RouterLifetime: 1800, Options: os}}, nil
+				}})
+		}
+	}
 	return out
 }
 
